@@ -1,8 +1,9 @@
 (* C04 — the statements of props/C04.v assembled from the other proof files. *)
 From verif Require Import lib.Base lib.Utf8 model.C03 proofs.C03_proofs model.C08_Value
-  proofs.C08_Value_proofs model.C04 proofs.C04_proofs proofs.C04_text proofs.C04_roundtrip
+  proofs.C08_Value_proofs proofs.C09_proofs model.C04 proofs.C04_proofs proofs.C04_text proofs.C04_roundtrip
   proofs.C04_sem proofs.C04_order proofs.C04_fuel.
 From verif Require model.C05 proofs.C05_float_proofs.
+From Coq Require Import Permutation.
 Open Scope N_scope.
 
 (* float patterns are 64-bit and map keys are pairwise not eq, a NaN counting
@@ -16,24 +17,35 @@ Variable fmtF fmtE : N -> bytes.
 Variable rk : N -> Z.
 Hypothesis HS : C05_float_proofs.contract_S pf fmtF fmtE.
 
+Notation repr := (C04.repr is_print fmtF fmtE rk).
+Notation norm := (C04.norm is_print pf fmtF fmtE rk).
+Notation NaN_ok := (C05_float_proofs.S2_nan _ _ _ HS).
+
 Theorem repr_roundtrip v : okv v = true -> wfv v ->
   forall ind ctx t fuel, (rdepth v <= fuel)%nat -> term_ok is_print ctx t ->
-  exists v', read_val is_print pf fuel ctx (repr is_print fmtF fmtE rk v ind ++ t) = ROk v' t
-             /\ eqn v v' = true.
+  exists v', read_val is_print pf fuel ctx (repr v ind ++ t) = ROk v' t /\ eqn v v' = true.
 Proof.
-  intros Hok W ind ctx t fuel Hf Ht. exists (norm pf rk v). split.
+  intros Hok W ind ctx t fuel Hf Ht. exists (norm v ind). split.
   - apply repr_reads_back; assumption.
-  - apply (norm_good pf rk (C05_float_proofs.S2_nan _ _ _ HS) v Hok W).
+  - apply (norm_good is_print pf fmtF fmtE rk NaN_ok v Hok W ind).
 Qed.
 
 Theorem repr_single_expression v : okv v = true ->
   forall ind fuel, (rdepth v <= fuel)%nat ->
-  read_val is_print pf fuel CNormal (repr is_print fmtF fmtE rk v ind ++ []) = ROk (norm pf rk v) [].
+  read_val is_print pf fuel CNormal (repr v ind ++ []) = ROk (norm v ind) [].
 Proof. intros Hok ind fuel Hf. apply repr_reads_back; try assumption. exact I. Qed.
+
+Theorem read_expr_roundtrip v ind : okv v = true -> wfv v ->
+  exists v', read_expr is_print pf (repr v ind) = EVal v' /\ eqn v v' = true.
+Proof.
+  intros Hok W. exists (norm v ind). split.
+  - apply read_expr_repr; assumption.
+  - apply (norm_good is_print pf fmtF fmtE rk NaN_ok v Hok W ind).
+Qed.
 
 Theorem repr_keeps_exactness v : okv v = true ->
   forall ind ctx t fuel, (rdepth v <= fuel)%nat -> term_ok is_print ctx t ->
-  exists v', read_val is_print pf fuel ctx (repr is_print fmtF fmtE rk v ind ++ t) = ROk v' t
+  exists v', read_val is_print pf fuel ctx (repr v ind ++ t) = ROk v' t
    /\ num_type v' = num_type v
    /\ match v with
       | VInt _ | VBig _ | VRat _ => v' = v
@@ -41,26 +53,85 @@ Theorem repr_keeps_exactness v : okv v = true ->
       | _ => True
       end.
 Proof.
-  intros Hok ind ctx t fuel Hf Ht. exists (norm pf rk v). split; [apply repr_reads_back; assumption|].
-  split; [apply (norm_num_type pf rk (C05_float_proofs.S2_nan _ _ _ HS))|].
-  pose proof (norm_keeps_number pf rk (C05_float_proofs.S2_nan _ _ _ HS) v Hok) as K.
-  destruct v; try exact I; exact K.
+  intros Hok ind ctx t fuel Hf Ht. exists (norm v ind). split; [apply repr_reads_back; assumption|].
+  split; [apply (norm_num_type is_print pf fmtF fmtE rk NaN_ok)|].
+  pose proof (norm_keeps_number is_print pf fmtF fmtE rk NaN_ok v Hok) as K.
+  destruct v; try exact I; exact (K ind).
 Qed.
 
-(* the function the judge runs on the whole argument of put *)
-Theorem read_expr_roundtrip v ind : okv v = true -> wfv v ->
-  exists v', read_expr is_print pf (repr is_print fmtF fmtE rk v ind) = EVal v' /\ eqn v v' = true.
+(* values of the domain that print alike are eq (NaN by kind): the text reads
+   back to one value, which is eq to both *)
+Lemma same_text_eqn a b ind : okv a = true -> wfv a -> okv b = true -> wfv b ->
+  repr a ind = repr b ind -> eqn a b = true.
 Proof.
-  intros Hok W. exists (norm pf rk v). split.
-  - apply read_expr_repr; assumption.
-  - apply (norm_good pf rk (C05_float_proofs.S2_nan _ _ _ HS) v Hok W).
+  intros Oa Wa Ob Wb E.
+  pose proof (read_expr_repr is_print pf fmtF fmtE rk HS a ind Oa) as Ra.
+  pose proof (read_expr_repr is_print pf fmtF fmtE rk HS b ind Ob) as Rb.
+  rewrite E in Ra. rewrite Ra in Rb. injection Rb as En.
+  destruct (norm_good is_print pf fmtF fmtE rk NaN_ok a Oa Wa ind) as [Wna Ea].
+  destruct (norm_good is_print pf fmtF fmtE rk NaN_ok b Ob Wb ind) as [Wnb Eb].
+  unfold eqn. rewrite <- En in Eb, Wnb.
+  apply (equal_trans _ (denan (norm a ind))); try assumption.
+  apply equal_sym; assumption.
+Qed.
+
+(* hence, in a map of the domain, entries whose keys print alike are one entry *)
+Lemma texts_distinct m ind : okv (VMap m) = true -> wfv (VMap m) ->
+  TextsDistinct is_print fmtF fmtE rk m ind.
+Proof.
+  intros Hok W e1 e2 H1 H2 _ T.
+  cbn [okv] in Hok. rewrite forallb_forall in Hok.
+  pose proof (Hok e1 H1) as O1. pose proof (Hok e2 H2) as O2.
+  apply andb_true_iff in O1 as [O1 _]. apply andb_true_iff in O2 as [O2 _].
+  destruct (wfd_map_in m e1 W H1) as [W1 _]. destruct (wfd_map_in m e2 W H2) as [W2 _].
+  apply (wfd_keys_distinct m W e1 e2 H1 H2).
+  exact (same_text_eqn (fst e1) (fst e2) (ind + 1)%Z O1 W1 O2 W2 T).
+Qed.
+
+(* THE ORDER THEOREM: for every map of the domain on whose keys CmpTotal is
+   antisymmetric and transitive, the text is the same for every order in which
+   the hash map yields the entries *)
+Theorem repr_order_canonical m1 m2 ind :
+  okv (VMap m1) = true -> wfv (VMap m1) -> KeysOrdered rk m1 -> Permutation m1 m2 ->
+  repr (VMap m1) ind = repr (VMap m2) ind.
+Proof.
+  intros Hok W KO Pm. apply repr_order_canonical_gen; try assumption. apply texts_distinct; assumption.
+Qed.
+
+(* no hypothesis on the comparison is left when the numbers inside the keys are
+   all exact, or all inexact *)
+Theorem repr_order_canonical_exact m1 m2 ind :
+  okv (VMap m1) = true -> wfv (VMap m1) -> wfb (VMap m1) = true -> injective rk ->
+  (forall e, In e m1 -> nums_all is_exact (fst e) = true) -> Permutation m1 m2 ->
+  repr (VMap m1) ind = repr (VMap m2) ind.
+Proof.
+  intros Hok W Wr Inj Hn Pm. apply repr_order_canonical; try assumption.
+  apply (keys_ordered_of is_exact); auto.
+Qed.
+
+Theorem repr_order_canonical_inexact m1 m2 ind :
+  okv (VMap m1) = true -> wfv (VMap m1) -> wfb (VMap m1) = true -> injective rk ->
+  (forall e, In e m1 -> nums_all is_float (fst e) = true) -> Permutation m1 m2 ->
+  repr (VMap m1) ind = repr (VMap m2) ind.
+Proof.
+  intros Hok W Wr Inj Hn Pm. apply repr_order_canonical; try assumption.
+  apply (keys_ordered_of is_float); auto.
+Qed.
+
+Theorem repr_order_canonical_nested m m'' m' :
+  okv (VMap m) = true -> wfv (VMap m) -> KeysOrdered rk m -> Permutation m m'' ->
+  Forall2 (fun e e' => fst e = fst e' /\ SameText is_print fmtF fmtE rk (snd e) (snd e')) m'' m' ->
+  SameText is_print fmtF fmtE rk (VMap m) (VMap m').
+Proof.
+  intros Hok W KO Pm F. apply (repr_order_canonical_nested_gen is_print fmtF fmtE rk m m'' m'); try assumption.
+  intros ind. apply texts_distinct; assumption.
 Qed.
 
 (* what the model predicts for the implementation passes the oracle *)
-Theorem model_passes_oracle v text : okv v = true -> wfv v ->
-  check_C04 v resValue (norm pf rk v) true text [] = true.
+Theorem model_passes_oracle v ind text : okv v = true -> wfv v ->
+  check_C04 v resValue (norm v ind) true text [] = true.
 Proof.
   intros Hok W. unfold check_C04. cbn [forallb]. rewrite N.eqb_refl, orb_true_r. cbn [andb].
-  rewrite ?andb_true_r. apply (norm_good pf rk (C05_float_proofs.S2_nan _ _ _ HS) v Hok W).
+  rewrite ?andb_true_r. apply (norm_good is_print pf fmtF fmtE rk NaN_ok v Hok W ind).
 Qed.
 End Main.
